@@ -24,6 +24,8 @@ mod c16;
 #[cfg(kani)]
 mod gen_c09;
 #[cfg(kani)]
+mod c09;
+#[cfg(kani)]
 mod gen_c20;
 #[cfg(kani)]
 mod gen_c15;
